@@ -190,7 +190,7 @@ cs_format(char *str, size_t maxlen, struct qb_log_callsite *cs, va_list ap)
 	if (len > maxlen) {
 		len = maxlen;
 	}
-	if (str[len - 1] == '\n') {
+	if (len > 0 && str[len - 1] == '\n') {
 		str[len - 1] = '\0';
 	}
 }
